@@ -11,6 +11,8 @@ import pykoop
 import pykoop.lmi_regressors as L
 
 SOLVER = {'solver': 'cvxopt'}
+# the class-level solver defaults as they are when the library is imported (before any fit of this process)
+PRISTINE_SOLVER_DEFAULTS = dict(L.LmiRegressor._default_solver_params)
 warnings.filterwarnings('ignore')
 
 
